@@ -165,6 +165,13 @@ Definition seg_internal (fld : fieldT) (rows : list srow) : list (@vec N) :=
   scatter mask2 (map (fun '(a, b) => vsub3 a b) (combine (gather mask2 bh2) sub)) bh2.   (* BHfinal[mask2] -= ... *)
 End SegInternal.
 
+(* the result the property asks for on a full-angle row: Cylinder(2 r2, h) - [r1 != 0] Cylinder(2 r1, h), for a
+   row-wise BHJM_magnet_cylinder cyl1 *)
+Definition full_cylinder_spec {N : NumOps} (cyl1 : fieldT -> @crow N -> @vec N) (fld : fieldT) (x : @srow N) : @vec N :=
+  let '(_, _, (r1, _, _, _, _)) := x in
+  if neqb N r1 (nofZ N 0) then cyl1 fld (outer_row x)
+  else vsub3 (cyl1 fld (outer_row x)) (cyl1 fld (inner_row x)).
+
 (* ------------------------------------------------------------------ np.unique(axis=0, return_inverse=True) *)
 Section Unique.
 Context {A : Type}.
